@@ -214,7 +214,7 @@ func init() {
 					var ops []*c12op
 					for i, n := range sizes {
 						kind := []string{"send", "call", "important"}[i%3]
-						if ctx.Thorough {
+						if ctx.Thorough && n >= 2 { // (payloads of 0 and 1 bytes cannot carry a distinguishing seed)
 							for _, k := range []string{"send", "call", "important"} {
 								ops = append(ops, &c12op{kind: k, addr: addr, payload: mkPayload(n, byte(len(ops)))})
 							}
